@@ -586,6 +586,8 @@ contract(SOL + "transpiration.py", "transpiration",
                                           "(growing_season and NewCond.canopy_cover == old(InitCond.cc_prev) and old(InitCond.cc_prev) < old(InitCond.canopy_cover))"),
              ("C04.transpiration_aer_days", "implies(growing_season, 0 <= NewCond.aer_days and NewCond.aer_days <= Crop.LagAer and NewCond.day_submerged >= 0 and forall(j, 0, n, NewCond.aer_days_comp[j] >= 0))"),
              ("C12.transpiration_same_object", "same(NewCond, InitCond) and same(NewCond.th, old(InitCond.th))"),
+             # the transpiration ratio (read by root_development on the next day) is a fraction in season and is not touched outside it
+             ("C05.transpiration_tr_ratio_fraction", "implies(growing_season, 0 <= NewCond.tr_ratio and NewCond.tr_ratio <= 1) and implies(not growing_season, NewCond.tr_ratio == old(InitCond.tr_ratio))"),
          ],
          loops={
              "L1": dict(invariant=[("adc", "forall(j, 0, n, NewCond.aer_days_comp[j] >= 0)")]),
